@@ -97,7 +97,7 @@ PROPS = {
         ],
     },
     'C10': {
-        'rule': 'every read-only operation evaluated with owning / Map / Map<const> operands on the left and on the right over exact-size heap blocks at aligned and mis-aligned offsets (AddressSanitizer build), every write operation through mutable views over guarded buffers; non-trivial: mis-aligned buffer, non-identity operands',
+        'rule': 'every read-only operation evaluated with owning / Map / Map<const> operands on the left and on the right over exact-size heap blocks at aligned and mis-aligned offsets (AddressSanitizer build), every write operation through mutable views over guarded buffers; views created before the buffer is overwritten must read the new contents (data() is the buffer address); mutable views over not-yet-valid buffers (zeros, fill pattern, off-norm) initialised / normalised through the view; non-trivial: mis-aligned buffer, non-identity operands',
         'assumptions': ['AddressSanitizer + UBSan (g++) report any read outside the exact-size heap block that backs a view; guard words detect writes outside the payload',
                         'results across operand kinds compared within 16u of the magnitude of each result (bit-identity recorded as a statistic)'],
         'stages': [
@@ -155,7 +155,7 @@ PROPS = {
         ],
     },
     'C15': {
-        'rule': 'end points A and B = A (+) d with relative rotation < pi (strata of 1.3), t in {0,1}, (0,1) dense, outside [0,1] (+-1e-12..1e3, NaN, inf), the three methods, degrees 0..8, end velocities of norm 0..10, left translations g; exact-rational evaluation of the smoothing polynomial; non-trivial: 0<t<1, A != B, non-zero velocities for CUBIC/CNSMOOTH',
+        'rule': 'end points A and B = A (+) d with relative rotation < pi (strata of 1.3), t in {0,1}, (0,1) dense, outside [0,1] (+-1e-12..1e3, NaN, inf), the three methods, degrees 0..8, end velocities of norm 0..10, left translations g; call histories (consecutive SLERP calls sharing one end point, each against the reference geodesic; repeated calls bit-identical for the three methods); exact-rational evaluation of the smoothing polynomial; non-trivial: 0<t<1, A != B, non-zero velocities for CUBIC/CNSMOOTH',
         'assumptions': ASSUME_ORACLE + ['smoothing_phi instantiated over the exact scalar vf::Rat for the monotonicity clause (2000-point grid per degree once per process + generated rational pairs)'],
         'stages': [
             {'src': 'C15.cpp', 'configs': D_GROUPS + ['SE2f', 'SE3f', 'B_SE3_SO2_R3_d'],
@@ -166,7 +166,7 @@ PROPS = {
         ],
     },
     'C16': {
-        'rule': 'point clouds C (+) delta_i, |delta_i| <= 0.5, n in 0..50, centre C anywhere (rotation strata incl. angle near pi, translations <= 1e3), permutations, left / right translations, identical points, the four routines; non-trivial: n >= 3, spread >= 1e-2, centre rotation >= 0.1',
+        'rule': 'point clouds C (+) delta_i, |delta_i| <= 0.5, n in 0..50, centre C anywhere (rotation strata incl. angle near pi, translations <= 1e3), permutations, left / right translations, identical points, the four routines; every case is a two-call history (the routine is first run on a set of another size, then the result must not depend on a second, different earlier call); non-trivial: n >= 3, spread >= 1e-2, centre rotation >= 0.1',
         'assumptions': ['residual and distances are measured on the reference model (certified logarithm); tolerances: residual 2.02*sqrt(eps) (the routines stop at |step|^2 < eps), equivariance / order 20*sqrt(eps), scaled by |Ad_h| for right translations, plus 2^12 u * coordinates',
                         'the weighted routine average() is only required to be valid, to return identical points, to raise on the empty set and to be left-equivariant'],
         'stages': [
@@ -202,7 +202,7 @@ PROPS = {
         ],
     },
     'C11': {
-        'rule': 'bundle layouts covering every group first/middle/last, repeated and single, differing DoF/RepSize/Dim/matrix sizes; per-element inputs of 1.3; non-trivial: >= 2 elements with different DoF and input non-identity in every element',
+        'rule': 'bundle layouts covering every group first/middle/last, repeated and single, differing DoF/RepSize/Dim/matrix sizes; per-element inputs of 1.3; group and tangent Random()/setRandom() replayed element-wise from the same srand state; non-trivial: >= 2 elements with different DoF and input non-identity in every element',
         'assumptions': ['offsets are recomputed by the harness as prefix sums of the documented per-group sizes (engine/vf_ref.cpp Spec), not read from manif traits',
                         'stand-alone element results are manif results themselves (differential within the library); their correctness is the subject of C01-C06',
                         'equality within 8u per coefficient (bit-identity recorded as a statistic), off-diagonal entries exactly +0.0 with NaN-prefilled outputs'],
